@@ -984,3 +984,146 @@ def _reaches_only_err(cx, fn, cfg, start):
     return True
 
 
+
+
+# ---------------------------------------------------------------------------------------------
+# R-IP-SYNC (C12): the instruction pointer used for error positions is in sync on every loop entry
+
+def rule_ip_sync(cx, tier):
+    r = RuleResult("R-IP-SYNC", "the position recorded for diagnostics is current on every entry of the interpreter loop: "
+                                "every path from the entry of execute_instructions to an instruction dispatch passes an "
+                                "assignment of self.instruction_ip")
+    fn = cx.need_fn(VM + "execute_instructions")
+    cfg = cx.cfg(fn)
+    sets = set()
+    for b in fn.blocks:
+        if b.cleanup:
+            continue
+        for st in b.stmts:
+            if st[0] == "a" and st[1][0] == 1 and place_fields(st[1]) == ["instruction_ip"]:
+                sets.add(b.idx)
+    disp = [c for c in fn.calls() if c.short == VM + "execute_instruction"]
+    require(sets, "R-IP-SYNC: no assignment of self.instruction_ip in execute_instructions")
+    require(disp, "R-IP-SYNC: no dispatch call in execute_instructions")
+    r.analysed = {"instruction_ip_assignments": len(sets), "dispatch_sites": len(disp)}
+    for d in disp:
+        r.instances += 1
+        r.nontrivial += 1
+        p = None if 0 in sets else cfg.find_path(0, lambda b: b == d.bb, sets, include_src_succs=False)
+        if p is not None:
+            r.add(Finding("R-IP-SYNC", fn.qual, "entry", "an instruction can be dispatched before self.instruction_ip has "
+                          "been set on this entry of the loop: after a generator resumes (or a nested entry) the first "
+                          "instruction reports the position of the previous run's last instruction", fn.file, d.line,
+                          [f"bb{b} {fn.file}:{line_of(fn, b)}" for b in p]))
+        r.sample({"fn": fn.qual, "dispatch_line": d.line, "assignment_blocks": sorted(sets), "synced_on_entry": p is None})
+    # and again after each dispatched instruction (the loop's back edge)
+    for (t, h) in cfg.back_edges():
+        loop = cfg.natural_loop(t, h)
+        if not any(d.bb in loop for d in disp):
+            continue
+        r.instances += 1
+        r.nontrivial += 1
+        for d in disp:
+            if d.bb not in loop:
+                continue
+            p = cfg.find_path(d.bb, lambda b: b == d.bb, sets)
+            if p is not None and all(b in loop for b in p):
+                r.add(Finding("R-IP-SYNC", fn.qual, "iteration", "the loop can dispatch the next instruction without "
+                              "updating self.instruction_ip", fn.file, d.line,
+                              [f"bb{b} {fn.file}:{line_of(fn, b)}" for b in p]))
+    return r
+
+
+# ---------------------------------------------------------------------------------------------
+# R-RESOLVE-ORDER (C18): name.koto is tried before name/main.koto
+
+def rule_resolve_order(cx, tier):
+    r = RuleResult("R-RESOLVE-ORDER", "module resolution tries `name.koto` before `name/main.koto`: in find_module the "
+                                      "existence test of the candidate built without the \"main\" component dominates the "
+                                      "test of the candidate built with it, which lies on the first test's false edge")
+    fn = cx.F.fn("koto_bytecode::module_loader::find_module")
+    require(fn is not None, "R-RESOLVE-ORDER: find_module not found")
+    cfg = cx.cfg(fn)
+    du = cx.du(fn)
+
+    def uses_main(local, depth=0, seen=None):
+        """does the path value derive from a join("main")"""
+        seen = seen or set()
+        if local is None or local in seen or depth > 12:
+            return False
+        seen.add(local)
+        for d in du.defs.get(local, []):
+            if d[2] == "call":
+                c = d[3]
+                for a in c.args:
+                    k = op_const(a)
+                    if k is not None and k.get("d", "").strip('"') == "main":
+                        return True
+                    l = op_base(a)
+                    if l is not None:
+                        rr = du.root(l)
+                        if rr[0] == "const" and rr[1].get("d", "").strip('"') == "main":
+                            return True
+                        if uses_main(l, depth + 1, seen):
+                            return True
+            elif d[2] == "assign":
+                rv = d[3]
+                from ..mir import rv_places
+                for pl in rv_places(rv):
+                    if uses_main(pl[0], depth + 1, seen):
+                        return True
+        return False
+
+    def is_candidate(local, depth=0, seen=None):
+        """does the path derive from search_folder.join(module_name): a Path::join whose argument is the name parameter"""
+        seen = seen or set()
+        if local is None or local in seen or depth > 12:
+            return False
+        seen.add(local)
+        for d in du.defs.get(local, []):
+            if d[2] == "call":
+                c = d[3]
+                if c.is_("Path::join", "PathBuf::join") and len(c.args) > 1:
+                    a = op_base(c.args[1])
+                    if a is not None and du.root(a) == ("arg", 1):
+                        return True
+                for a in c.args:
+                    if is_candidate(op_base(a), depth + 1, seen):
+                        return True
+            elif d[2] == "assign":
+                from ..mir import rv_places
+                for pl in rv_places(d[3]):
+                    if is_candidate(pl[0], depth + 1, seen):
+                        return True
+        return False
+
+    tests = []
+    for c in fn.calls():
+        if c.is_("Path::exists", "Path::is_file", "Path::try_exists", "Path::is_dir") and c.args:
+            if is_candidate(op_base(c.args[0])):
+                tests.append((c, uses_main(op_base(c.args[0]))))
+    r.analysed = {"existence_tests": [(c.line, m) for c, m in tests]}
+    r.instances = 1
+    r.nontrivial = 1
+    file_tests = [c for c, m in tests if not m]
+    dir_tests = [c for c, m in tests if m]
+    if not file_tests or not dir_tests:
+        r.add(Finding("R-RESOLVE-ORDER", fn.qual, "candidates", "find_module no longer tests the file candidate "
+                      "(`name.koto`) and the directory candidate (`name/main.koto`) separately: which one wins when both "
+                      "exist is no longer fixed by the order of two tests", fn.file, fn.line))
+        return r
+    f0, d0 = file_tests[0], dir_tests[0]
+    ok = cfg.dominates(f0.bb, d0.bb)
+    if ok:
+        # the directory test lies on the false edge of the file test
+        flag = f0.dest[0]
+        b = f0.target
+        t = fn.blocks[b].term if b is not None else None
+        if t and t[0] == "switch" and op_base(t[1]) == flag:
+            false_edges = [tb for v, tb in t[2] if v == 0]
+            ok = any(e == d0.bb or cfg.dominates(e, d0.bb) for e in false_edges)
+    if not ok:
+        r.add(Finding("R-RESOLVE-ORDER", fn.qual, "order", "the directory candidate (`name/main.koto`) is not tested only "
+                      "after the file candidate (`name.koto`) was found missing", fn.file, d0.line))
+    r.sample({"fn": fn.qual, "file_test_line": f0.line, "dir_test_line": d0.line, "ok": ok})
+    return r
